@@ -1242,17 +1242,21 @@ impl<T, A: Allocator> RawTable<T, A> {
         eq: impl FnMut(usize, &T) -> bool,
     ) -> [Option<&'_ mut T>; N] {
         unsafe {
-            let ptrs = self.get_many_mut_pointers(hashes, eq);
+            let buckets = self.get_many_mut_buckets(hashes, eq);
 
-            for (i, cur) in ptrs.iter().enumerate() {
-                if cur.is_some() && ptrs[..i].contains(cur) {
-                    panic!("duplicate keys found");
+            // Compare buckets rather than element addresses: zero-sized elements all live at the
+            // same (dangling) address although they occupy distinct buckets.
+            for (i, cur) in buckets.iter().enumerate() {
+                if let Some(cur) = cur {
+                    if buckets[..i].iter().flatten().any(|prev| prev.ptr == cur.ptr) {
+                        panic!("duplicate keys found");
+                    }
                 }
             }
             // All bucket are distinct from all previous buckets so we're clear to return the result
             // of the lookup.
 
-            ptrs.map(|ptr| ptr.map(|mut ptr| ptr.as_mut()))
+            buckets.map(|bucket| bucket.map(|bucket| bucket.as_mut()))
         }
     }
 
@@ -1261,19 +1265,16 @@ impl<T, A: Allocator> RawTable<T, A> {
         hashes: [u64; N],
         eq: impl FnMut(usize, &T) -> bool,
     ) -> [Option<&'_ mut T>; N] {
-        let ptrs = self.get_many_mut_pointers(hashes, eq);
-        ptrs.map(|ptr| ptr.map(|mut ptr| ptr.as_mut()))
+        let buckets = self.get_many_mut_buckets(hashes, eq);
+        buckets.map(|bucket| bucket.map(|bucket| bucket.as_mut()))
     }
 
-    unsafe fn get_many_mut_pointers<const N: usize>(
+    unsafe fn get_many_mut_buckets<const N: usize>(
         &mut self,
         hashes: [u64; N],
         mut eq: impl FnMut(usize, &T) -> bool,
-    ) -> [Option<NonNull<T>>; N] {
-        array::from_fn(|i| {
-            self.find(hashes[i], |k| eq(i, k))
-                .map(|cur| cur.as_non_null())
-        })
+    ) -> [Option<Bucket<T>>; N] {
+        array::from_fn(|i| self.find(hashes[i], |k| eq(i, k)))
     }
 
     /// Returns the number of elements the map can hold without reallocating.
